@@ -22,7 +22,7 @@ func c07Prop(st *CaseStats, fam int) func(t *rapid.T) {
 		depth := rapid.SampledFrom([]int{0, 0, 1, 1, 2}).Draw(t, "depth")
 		if fam == FamBlocks || fam == FamWide || fam == FamHuge {
 			cfg.MaxIn = 2
-			depth = rapid.SampledFrom([]int{0, 0, 1}).Draw(t, "depth")
+			depth = rapid.SampledFrom([]int{0, 1, 1}).Draw(t, "depth")
 		}
 		c, err := GenCase(t, ctx, sc, cfg, depth, "c")
 		if err != nil {
